@@ -93,6 +93,53 @@ class TupleV(V):
         return 'TupleV(%r)' % (self.items,)
 
 
+class DictV(V):
+    __slots__ = ('items',)
+
+    def __init__(self, items=None):
+        self.items = list(items or [])      # [(keyV, valueV)] in insertion order
+
+    def get(self, key):
+        for k, v in self.items:
+            if isinstance(k, Const) and isinstance(key, Const) and k.v == key.v:
+                return v
+            if k is key:
+                return v
+        return None
+
+    def set(self, key, value):
+        for i, (k, v) in enumerate(self.items):
+            if (isinstance(k, Const) and isinstance(key, Const) and k.v == key.v) or k is key:
+                self.items[i] = (k, value)
+                return
+        self.items.append((key, value))
+
+    def __repr__(self):
+        return 'DictV(%r)' % (self.items,)
+
+
+class SetV(V):
+    __slots__ = ('items',)
+
+    def __init__(self, items=None):
+        self.items = list(items or [])
+
+    def __repr__(self):
+        return 'SetV(%r)' % (self.items,)
+
+
+class ObjV(V):
+    """instance of a class of the package, built by interpreting its __init__"""
+    __slots__ = ('cls', 'attrs')
+
+    def __init__(self, cls):
+        self.cls = cls          # ClassInfo
+        self.attrs = {}
+
+    def __repr__(self):
+        return 'ObjV(%s)' % self.cls.name
+
+
 class FuncV(V):
     __slots__ = ('fn', 'env', 'node')
 
@@ -262,6 +309,8 @@ class Interp:
         self.max_depth = max_depth
         self._const_cache = {}
         self.foreign_names = set()
+        self._defaults_cache = {}
+        self.plan, self.trail, self.memo, self.refine = [], [], {}, {}
         self.paths_run = 0
         self.depth = 0
 
@@ -371,12 +420,19 @@ class Interp:
             raise Undecided('too many positional arguments for %s' % fn.key)
         if a.kwarg:
             rest = [(Const(k), v) for k, v in kwargs.items() if k not in names]
-            fr.vars[a.kwarg.arg] = Sym('**kwargs') if not rest else TupleV([TupleV([k, v]) for k, v in rest])
+            if getattr(self, 'concrete_context', False):
+                fr.vars[a.kwarg.arg] = DictV(rest)
+            else:
+                fr.vars[a.kwarg.arg] = Sym('**kwargs') if not rest else TupleV([TupleV([k, v]) for k, v in rest])
         for n in names:
             if n in given:
                 fr.vars[n] = given[n]
             elif n in defaults:
-                fr.vars[n] = self.eval(defaults[n], Frame(fn, fn.module, None))
+                # default values are evaluated once, at definition time (a mutable default is shared)
+                ck = (fn.key, n)
+                if ck not in self._defaults_cache:
+                    self._defaults_cache[ck] = self.eval(defaults[n], Frame(fn, fn.module, None))
+                fr.vars[n] = self._defaults_cache[ck]
             else:
                 raise Undecided('missing argument %s for %s' % (n, fn.key))
 
@@ -497,10 +553,16 @@ class Interp:
             idx = self.eval(target.slice, fr)
             if isinstance(obj, ListV) and isinstance(idx, Const) and isinstance(idx.v, int):
                 obj.items[idx.v] = v
+            elif isinstance(obj, DictV):
+                obj.set(idx, v)
             else:
                 raise Undecided('subscript store on %r (line %d)' % (obj, target.lineno))
         elif isinstance(target, ast.Attribute):
-            raise Undecided('attribute store (line %d)' % target.lineno)
+            obj = self.eval(target.value, fr)
+            if isinstance(obj, ObjV):
+                obj.attrs[target.attr] = v
+            else:
+                raise Undecided('attribute store on %r (line %d)' % (obj, target.lineno))
         else:
             raise Undecided('assignment target %s' % type(target).__name__)
 
@@ -566,6 +628,13 @@ class Interp:
         if isinstance(obj, TypeV):
             if obj.name == 'Token':
                 return AnnotV('Token.' + attr)
+            if attr == '__slots__':
+                for m_ in self.repo.modules.values():
+                    ci = m_.classes.get(obj.name)
+                    if ci is not None:
+                        for st_ in ci.node.body:
+                            if isinstance(st_, ast.Assign) and src(st_.targets[0]) == '__slots__':
+                                return TupleV([Const(e.value) for e in ast.walk(st_.value) if isinstance(e, ast.Constant)])
             if attr in ('__module__', '__qualname__', '__name__'):
                 return SymStr('%s.%s' % (obj.name, attr), nonempty=True)
             if attr in ('__repr__', '__str__', '__format__'):
@@ -596,6 +665,14 @@ class Interp:
             if isinstance(t, (D.Nest, D.Grp, D.AB)) and attr == 'doc':
                 return DocV(t.child)
             raise Undecided('attribute .%s of document %s' % (attr, D.show(t)))
+        if isinstance(obj, ObjV):
+            if attr in obj.attrs:
+                return obj.attrs[attr]
+            if attr in obj.cls.methods:
+                return BoundV(obj, attr)
+            raise Raised('AttributeError: %s.%s' % (obj.cls.name, attr), getattr(n, 'lineno', 0))
+        if isinstance(obj, (DictV, SetV)):
+            return BoundV(obj, attr)
         if isinstance(obj, AnnotV):
             if attr == 'value' and isinstance(obj.label, tuple):
                 return SymStr(obj.label[1], nonempty=True)
@@ -627,6 +704,13 @@ class Interp:
                 if isinstance(v, Sym):
                     kwargs['**'] = v
                     continue
+                if isinstance(v, DictV):
+                    for kk, vv in v.items:
+                        if isinstance(kk, Const):
+                            kwargs[kk.v] = vv
+                        else:
+                            kwargs.setdefault('**pairs', []).append((kk, vv))
+                    continue
                 for item in self.iterate(v, k.value):
                     kk, vv = self.iterate(item, k.value)
                     if isinstance(kk, Const):
@@ -656,12 +740,38 @@ class Interp:
         return out
 
     def e_Dict(self, n, fr):
-        items = []
+        d = DictV()
         for k, v in zip(n.keys, n.values):
             if k is None:
-                raise Undecided('dict unpacking')
-            items.append(TupleV([self.eval(k, fr), self.eval(v, fr)]))
-        return TupleV(items)
+                src_d = self.eval(v, fr)
+                if isinstance(src_d, DictV):
+                    for kk, vv in src_d.items:
+                        d.set(kk, vv)
+                elif isinstance(src_d, (TupleV, ListV)) and not src_d.items:
+                    pass
+                else:
+                    d.set(Sym('**' + _prov(src_d)), src_d)
+                continue
+            d.set(self.eval(k, fr), self.eval(v, fr))
+        if getattr(self, 'concrete_context', False):
+            return d
+        return TupleV([TupleV([k, v]) for k, v in d.items])
+
+    def e_DictComp(self, n, fr):
+        d = DictV()
+        inner = Frame(fr.fn, fr.module, fr)
+
+        def rec(i):
+            if i == len(n.generators):
+                d.set(self.eval(n.key, inner), self.eval(n.value, inner))
+                return
+            g = n.generators[i]
+            for item in self.iterate(self.eval(g.iter, inner), g.iter):
+                self.assign(g.target, item, inner)
+                if all(self.truth(self.eval(c, inner), c) for c in g.ifs):
+                    rec(i + 1)
+        rec(0)
+        return d
 
     def e_IfExp(self, n, fr):
         if self.truth(self.eval(n.test, fr), n.test):
@@ -737,6 +847,10 @@ class Interp:
 
     def _compare(self, op, l, r, n):
         if op is ast.In:
+            if isinstance(r, DictV):
+                r = ListV([k for k, _ in r.items])
+            if isinstance(r, SetV):
+                r = ListV(r.items)
             if isinstance(r, (TupleV, ListV)):
                 unknown = False
                 for it in r.items:
@@ -758,6 +872,9 @@ class Interp:
                 return {ast.Lt: l.v < r.v, ast.LtE: l.v <= r.v, ast.Gt: l.v > r.v, ast.GtE: l.v >= r.v}[op]
             except Exception:
                 raise Undecided('constant comparison failed')
+        if isinstance(l, SetV) and isinstance(r, SetV) and op in (ast.LtE, ast.GtE):
+            a, b = (l, r) if op is ast.LtE else (r, l)
+            return all(any(self._known_eq(x, y) is True for y in b.items) for x in a.items)
         sym = {ast.Lt: '<', ast.LtE: '<=', ast.Gt: '>', ast.GtE: '>='}[op]
         # canonical orientation: a < b  /  a <= b
         if sym in ('>', '>='):
@@ -772,13 +889,15 @@ class Interp:
             return l.v == r.v
         if isinstance(l, TypeV) and isinstance(r, TypeV):
             return l.name == r.name
+        if isinstance(l, (Sym, SymStr)) and isinstance(r, (Sym, SymStr)) and l.prov == r.prov:
+            return True
         if isinstance(l, DocV) and isinstance(r, DocV):
             if l.t is D.NIL or r.t is D.NIL or l.t is D.HL or r.t is D.HL:
                 return l.t is r.t
             return None
-        if isinstance(l, (DocV, ListV, TupleV, CtxV, FuncV, AnnotV, ValueV)) and isinstance(r, Const):
+        if isinstance(l, (DocV, ListV, TupleV, CtxV, FuncV, AnnotV, ValueV, SetV, DictV, ObjV)) and isinstance(r, Const):
             return False
-        if isinstance(r, (DocV, ListV, TupleV, CtxV, FuncV, AnnotV, ValueV)) and isinstance(l, Const):
+        if isinstance(r, (DocV, ListV, TupleV, CtxV, FuncV, AnnotV, ValueV, SetV, DictV, ObjV)) and isinstance(l, Const):
             return False
         if isinstance(l, FuncV) and isinstance(r, FuncV):
             return l.fn is r.fn
@@ -801,6 +920,11 @@ class Interp:
                 return SymStr('%s[%s:%s]' % (_prov(obj), _prov(lo), _prov(hi)))
             return Sym('%s[%s:%s]' % (_prov(obj), _prov(lo), _prov(hi)))
         idx = self.eval(n.slice, fr)
+        if isinstance(obj, DictV):
+            r = obj.get(idx)
+            if r is None:
+                raise Raised('KeyError: %s' % _prov(idx), n.lineno)
+            return r
         if isinstance(obj, (ListV, TupleV)) and isinstance(idx, Const) and isinstance(idx.v, int):
             try:
                 return obj.items[idx.v]
@@ -839,7 +963,25 @@ class Interp:
         return FuncV(None, fr, n)
 
     def e_JoinedStr(self, n, fr):
-        return SymStr('f-string@%d' % n.lineno, nonempty=None)
+        parts = []
+        all_const = True
+        nonempty = False
+        for v in n.values:
+            if isinstance(v, ast.Constant):
+                parts.append(str(v.value))
+                nonempty = nonempty or bool(v.value)
+            else:
+                val = self.eval(v.value, fr)
+                if isinstance(val, Const) and isinstance(val.v, (str, int)) and v.conversion == -1 and v.format_spec is None:
+                    parts.append(str(val.v))
+                    nonempty = nonempty or bool(str(val.v))
+                else:
+                    all_const = False
+                    conv = {114: '!r', 115: '!s', 97: '!a'}.get(v.conversion, '')
+                    parts.append('{%s%s}' % (_prov(val), conv))
+        if all_const:
+            return Const(''.join(parts))
+        return SymStr('format(%r;%s)' % ('', ''.join(parts)), nonempty=True if nonempty else None)
 
     def e_Starred(self, n, fr):
         raise Undecided('bare starred expression')
@@ -851,9 +993,9 @@ class Interp:
     def truth(self, v, node=None):
         if isinstance(v, Const):
             return bool(v.v)
-        if isinstance(v, (ListV, TupleV)):
+        if isinstance(v, (ListV, TupleV, SetV, DictV)):
             return len(v.items) > 0
-        if isinstance(v, (DocV, CtxV, FuncV, Prim, TypeV, AnnotV, BoundV)):
+        if isinstance(v, (DocV, CtxV, FuncV, Prim, TypeV, AnnotV, BoundV, ObjV)):
             return True
         if isinstance(v, SymStr):
             if v.nonempty is True:
@@ -868,8 +1010,10 @@ class Interp:
         raise Undecided('truth of %r' % (v,))
 
     def iterate(self, v, node=None):
-        if isinstance(v, (ListV, TupleV)):
+        if isinstance(v, (ListV, TupleV, SetV)):
             return list(v.items)
+        if isinstance(v, DictV):
+            return [k for k, _ in v.items]
         if isinstance(v, ValueV) and v.elems is not None:
             return list(v.elems)
         if isinstance(v, Const) and isinstance(v.v, (tuple, list, str)):
@@ -887,6 +1031,59 @@ class Interp:
                 return NONE
             if name == 'pop':
                 return obj.items.pop(args[0].v if args else -1)
+            if name == 'reverse':
+                obj.items.reverse()
+                return NONE
+            if name == 'insert' and isinstance(args[0], Const):
+                obj.items.insert(args[0].v, args[1])
+                return NONE
+            if name == 'copy':
+                return ListV(list(obj.items))
+            if name == 'sort':
+                srt = self.p_sorted([obj], kwargs, node)
+                obj.items[:] = srt.items
+                return NONE
+        if isinstance(obj, ObjV):
+            meth = obj.cls.methods.get(name)
+            if meth is None:
+                raise Undecided('method %s of %s' % (name, obj.cls.name))
+            return self.call_function(FuncV(meth), [obj] + list(args), dict(kwargs), node)
+        if isinstance(obj, DictV):
+            if name == 'keys':
+                return ListV([k for k, _ in obj.items])
+            if name == 'values':
+                return ListV([v for _, v in obj.items])
+            if name == 'items':
+                return ListV([TupleV([k, v]) for k, v in obj.items])
+            if name == 'get':
+                r = obj.get(args[0])
+                return r if r is not None else (args[1] if len(args) > 1 else NONE)
+            if name == 'copy':
+                return DictV(list(obj.items))
+            if name == 'update':
+                for kk, vv in (args[0].items if args and isinstance(args[0], DictV) else []):
+                    obj.set(kk, vv)
+                for kk, vv in kwargs.items():
+                    obj.set(Const(kk), vv)
+                return NONE
+        if isinstance(obj, SetV):
+            if name == 'add':
+                if not any(self._known_eq(args[0], x) is True for x in obj.items):
+                    obj.items.append(args[0])
+                return NONE
+            if name in ('remove', 'discard'):
+                for i, x in enumerate(obj.items):
+                    if self._known_eq(args[0], x) is True:
+                        del obj.items[i]
+                        return NONE
+                if name == 'remove':
+                    raise Raised('KeyError: %s' % _prov(args[0]), getattr(node, 'lineno', 0))
+                return NONE
+            if name == 'issubset':
+                other = args[0].items if isinstance(args[0], (SetV, ListV, TupleV)) else []
+                return Const(all(any(self._known_eq(x, y) is True for y in other) for x in obj.items))
+            if name == 'copy':
+                return SetV(list(obj.items))
         if isinstance(obj, CtxV):
             if name == 'nested_call':
                 return CtxV(obj.prov, obj.nested + 1, obj.strategy, obj.attrs)
@@ -940,8 +1137,20 @@ class Interp:
             return AnnotV(('comment', _prov(args[0])))
         if name in ('_CommentedValue', '_TrailingCommentedValue'):
             return Sym('%s(%s)' % (name, ','.join(_prov(a) for a in args)))
-        if name == 'PrettyContext':
+        if name == 'PrettyContext' and not getattr(self, 'concrete_context', False):
             return CtxV('ctx', 0, kwargs.get('multiline_strategy'), {k: v for k, v in kwargs.items()})
+        if name == 'PrettyContext' or (getattr(self, 'concrete_classes', None) and name in self.concrete_classes):
+            ci = None
+            for m_ in self.repo.modules.values():
+                if name in m_.classes:
+                    ci = m_.classes[name]
+            if ci is None:
+                raise Undecided('class %s not found' % name)
+            obj = ObjV(ci)
+            init = ci.methods.get('__init__')
+            if init is not None:
+                self.call_function(FuncV(init), [obj] + list(args), dict(kwargs), node)
+            return obj
         if name in ('list', 'tuple'):
             if not args:
                 return ListV([]) if name == 'list' else TupleV([])
@@ -955,9 +1164,13 @@ class Interp:
             return self.type_of(args[0])
         if name in ('str', 'repr'):
             return SymStr('%s(%s)' % (name, _prov(args[0])) if args else "''")
+        if name == 'set' and getattr(self, 'concrete_context', False):
+            if not args:
+                return SetV([])
+            return SetV(self.iterate(args[0], node))
         if name in ('dict', 'OrderedDict', 'set', 'frozenset'):
             if not args:
-                return TupleV([])
+                return TupleV([]) if not getattr(self, 'concrete_context', False) else DictV([])
             return args[0]
         if name in ('int', 'float'):
             return Sym('%s(%s)' % (name, ','.join(_prov(a) for a in args)))
@@ -970,6 +1183,8 @@ class Interp:
         return any(name in m.classes for m in self.repo.modules.values())
 
     def type_of(self, v):
+        if isinstance(v, ObjV):
+            return TypeV(v.cls.name)
         if isinstance(v, ValueV):
             return v.type
         if isinstance(v, Const):
@@ -1043,7 +1258,7 @@ class Interp:
 
     def p_len(self, a, k, n):
         v = a[0]
-        if isinstance(v, (ListV, TupleV)):
+        if isinstance(v, (ListV, TupleV, SetV, DictV)):
             return Const(len(v.items))
         if isinstance(v, ValueV) and v.elems is not None:
             return Const(len(v.elems))
@@ -1192,6 +1407,9 @@ class Interp:
     def p_map(self, a, k, n):
         return ListV([self.call_function(a[0], [x], {}, n) for x in self.iterate(a[1], n)])
 
+    def p_warn(self, a, k, n):
+        return NONE
+
     def p_divmod(self, a, k, n):
         return TupleV([Sym('(%s//%s)' % (_prov(a[0]), _prov(a[1])), 'int'), Sym('(%s%%%s)' % (_prov(a[0]), _prov(a[1])), 'int')])
 
@@ -1212,7 +1430,7 @@ class Interp:
         return Sym('partial(%s)' % ','.join(_prov(x) for x in a))
 
 
-_METHODS = {'append', 'extend', 'format', 'join', 'keys', 'items', 'values', 'pop', 'splitlines', 'split',
+_METHODS = {'append', 'extend', 'reverse', 'insert', 'copy', 'sort', 'update', 'add', 'issubset', 'format', 'join', 'keys', 'items', 'values', 'pop', 'splitlines', 'split',
             'count', 'find', 'replace', 'get', 'startswith', 'endswith', 'lower', 'upper', 'strip', 'rstrip', 'index'}
 
 
